@@ -484,3 +484,58 @@ def run_sentineluse(prog, ctx=None):
                 res.ob("%s:%s in `%s`" % (f.qn, norm(show(n, f)), norm(show(user, f))[:50]), not numeric, f, n.get("l") or f.line,
                        "" if not numeric else "`%s` is used as a number in %s; its module stores it as (v > MAX) ? 0 : v, so a value that does not fit reads as 0 here (a long name becomes an empty one)" % (norm(show(n, f)), f.qn))
     return res
+
+
+def run_endderef(prog, ctx=None):
+    """ENDDEREF: a local that receives the end position of a range (`e = x.end()`, `e = begin + length`-style accessors named
+    `end`) is a bound: it is compared, never dereferenced (`e->m`, `*e`, `e[i]`).  `return &e->value` inside the loop
+    `for (c = begin(), e = end(); c < e; ++c)` hands out the slot behind the used data where the matching element `c` is meant."""
+    res = Result("ENDDEREF")
+    for f in sorted(prog.functions.values(), key=lambda f: (f.file, f.line, f.qn)):
+        if f.nocfg or f.file.startswith("examples/"):
+            continue
+        ends = {}
+        for b, i, n in f.walk_all():
+            pairs = []
+            if n.get("k") == "decl":
+                pairs = [(v["id"], v.get("n") or v.get("name") or "?", v["init"]) for v in n["vars"] if v.get("init") is not None]
+            elif n.get("k") == "bin" and n.get("op") == "=":
+                l = strip(n["a"], lvalue_to_rvalue=False)
+                if l.get("k") == "ref" and "id" in l["d"]:
+                    pairs = [(l["d"]["id"], l["d"].get("n"), n["b"])]
+            for vid, name, rhs in pairs:
+                r = strip(rhs, all_casts=True)
+                if r.get("k") == "call":
+                    nm = callee_name(r) or ""
+                    if nm == "end" or nm.endswith("::end"):
+                        ends[vid] = name
+        if not ends:
+            continue
+        # a variable that is assigned anything else as well is not a pure bound
+        for b, i, n in f.walk_all():
+            if n.get("k") == "bin" and n.get("op", "").endswith("=") and n["op"] not in ("==", "!=", "<=", ">="):
+                l = strip(n["a"], lvalue_to_rvalue=False)
+                r = strip(n["b"], all_casts=True)
+                if l.get("k") == "ref" and l["d"].get("id") in ends:
+                    nm = callee_name(r) or "" if r.get("k") == "call" else ""
+                    if not (nm == "end" or nm.endswith("::end")):
+                        ends.pop(l["d"]["id"], None)
+            if n.get("k") == "un" and n.get("op") in ("++", "--", "post++", "post--", "pre++", "pre--"):
+                x = strip(n["e"], lvalue_to_rvalue=False)
+                if x.get("k") == "ref":
+                    ends.pop(x["d"].get("id"), None)
+        for vid, name in sorted(ends.items()):
+            bad = None
+            for b, i, n in f.walk_all():
+                base = None
+                if n.get("k") == "mem" and n.get("arrow"):
+                    base = strip(n["b"], all_casts=True)
+                elif n.get("k") == "un" and n.get("op") == "*":
+                    base = strip(n["e"], all_casts=True)
+                elif n.get("k") == "idx":
+                    base = strip(n["a"], all_casts=True)
+                if base is not None and base.get("k") == "ref" and base["d"].get("id") == vid and bad is None:
+                    bad = n
+            res.ob("%s:%s is a bound" % (f.qn, name), bad is None, f, (bad.get("l") if bad else f.line) or f.line,
+                   "" if bad is None else "`%s` dereferences %s, which holds the end of the range: the slot behind the last element" % (norm(show(bad, f)), name))
+    return res
